@@ -86,6 +86,11 @@ def wantedFlush (addr : Ip) (asn id upts : Nat) (post : Bool) (chgs : List Chang
         Rec.bmpRm (globalHdr (if post then 64 else 0) addr asn id upts) false emb (.eor f)))
     embs
 
+/-- RFC 9069 §5.2: the Peer Up of the Loc-RIB instance carries fabricated OPENs with the router's AS and
+    identifier; capabilities MUST include the four-octet AS (without it an AS above 65535 is not representable) -/
+def locRibOpen (rid : Bytes) (asn : Nat) : Content :=
+  .other (s!"(open {asn} 0 {rid.foldl (fun a b => a * 256 + b) 0} (caps (as4 {asn})))".toList.map Char.toNat)
+
 def wanted : Ev → List Rec
   | .flush addr asn id upts post chgs embs => wantedFlush addr asn id upts post chgs embs
   | .dump rid c4 c6 => wantedDump rid c4 c6
@@ -102,6 +107,9 @@ def wanted : Ev → List Rec
                 asn4 := true } c.ap emb (monOf c.fam c.nlris c.attrs c.nh)]
   | .down addr asn id uptime r emb =>
       [.bmpDown (globalHdr 0 addr asn id (uptime % 4294967296)) (wantedDown r emb)]
+  | .locUp rid asn emb =>
+      [.bmpUp { ptype := 3, flags := 0, dist := 0, addr := .v4 [0, 0, 0, 0], asn := asn, bgpId := rid, ts := 0 }
+         (.v4 [0, 0, 0, 0]) 0 0 emb (locRibOpen rid asn) (locRibOpen rid asn)]
 
 def wantedItem : Item → List Rec
   | .pkt r => [r]
@@ -136,6 +144,7 @@ def evDom : Ev → Bool
   | .down addr asn id _ r emb =>
       ipWf addr && decide (asn < 4294967296) && decide (id < 4294967296) &&
         (match r with | .remote _ => emb.isSome | .loc _ => emb.isSome | _ => true)
+  | .locUp rid asn emb => decide (rid.length = 4) && decide (asn < 4294967296) && emb.isSome
 
 /-- the PEER_INDEX_TABLE in force after an event: a dump brings its own -/
 def evNext (np : Option Nat) : Ev → Option Nat
